@@ -9,7 +9,7 @@ _ENV = {"ASAN_OPTIONS": "abort_on_error=1:detect_leaks=0:strict_string_checks=1:
                         "detect_stack_use_after_return=1:allocator_may_return_null=1:"
                         "handle_abort=0:symbolize=1:max_allocation_size_mb=512:quarantine_size_mb=48"}
 
-HARNESS = dict(name="fixed_string", sources=_SOURCES, with_lib=False, cflags=["-g1"])
+HARNESS = dict(name="fixed_string", sources=_SOURCES, with_lib=False, cflags=["-g1"], deps=["fixed_string_rig.hpp"])
 
 SPEC = dict(
     prop="C10", level="exploration", default_harness="fixed_string",
